@@ -133,7 +133,37 @@ func checkC11(r *Run) {
 				tags = append(tags, "query-or-hash-suffix")
 			}
 			if strings.Contains(q.Spec, "%") {
-				tags = append(tags, "percent-in-specifier")
+				// an escape that decodes to an ordinary character (%20) inside a subpath that goes through a package's exports /
+				// imports map is decoded by Node and by esbuild alike; every other use of "%" belongs to the recorded class
+				low := strings.ToLower(q.Spec)
+				harmless := !strings.Contains(low, "%2e") && !strings.Contains(low, "%2f") && !strings.Contains(low, "%5c")
+				mapped := false
+				if strings.HasPrefix(q.Spec, "#") {
+					mapped = true
+				} else if !strings.HasPrefix(q.Spec, ".") && !strings.HasPrefix(q.Spec, "/") {
+					parts := strings.SplitN(q.Spec, "/", 3)
+					name := parts[0]
+					if strings.HasPrefix(name, "@") && len(parts) > 1 {
+						name += "/" + parts[1]
+					}
+					_ = name
+					// the package that Node's answer lies in: nearest package.json above the resolved file
+					if n.Real != "" {
+						d := filepath.Dir(strings.TrimPrefix(n.Real, realDir))
+						for d != "/" && d != "." && d != "" {
+							if body, ok := t.Files[d+"/package.json"]; ok {
+								mapped = strings.Contains(body, "\"exports\"") && !strings.Contains(body, "\"exports\":null")
+								break
+							}
+							d = filepath.Dir(d)
+						}
+					}
+				}
+				if harmless && mapped {
+					tags = append(tags, "harmless-percent-in-mapped-subpath")
+				} else {
+					tags = append(tags, "percent-in-specifier")
+				}
 			}
 			for _, k := range append(append([]string{}, pkgSubpathKeys...), pkgImportKeys...) {
 				if i := strings.Index(k, "*"); i >= 0 {
